@@ -18,6 +18,7 @@ import Driver.NodeRender
 import Driver.Block
 import Driver.Inline
 import Driver.HtmlDecode
+import Driver.Pipeline
 
 def dispatch (line : String) : String :=
   match line.trimAscii.toString.splitOn " " with
@@ -40,6 +41,7 @@ def dispatch (line : String) : String :=
   | "block" :: args => Driver.Block.handle args
   | "inline" :: args => Driver.Inline.handle args
   | "htmldecode" :: args => Driver.HtmlDecode.handle args
+  | "pipeline" :: args => Driver.Pipeline.handle args
   | _ => "bad-stream"
 
 partial def loop (h : IO.FS.Stream) (out : IO.FS.Stream) : IO Unit := do
